@@ -7,6 +7,7 @@ import (
 	"runtime/trace"
 
 	"github.com/bits-and-blooms/bitset"
+	"github.com/gordian-engine/gordian/gcrypto"
 	"github.com/gordian-engine/gordian/internal/gchan"
 	"github.com/gordian-engine/gordian/tm/tmconsensus"
 	"github.com/gordian-engine/gordian/tm/tmengine/tmelink"
@@ -244,41 +245,46 @@ func (s *ChattyStrategy) broadcastUpdatesOnly(ctx context.Context, prev, cur tmc
 		}
 	}
 
-	// Compare the count of set bits in the signature bitsets
-	// to determine if we need to broadcast updates for those.
+	// Broadcast the votes again if any block's signer set changed.
+	// Comparing only the number of distinct signers is insufficient:
+	// a validator that already voted may also sign for another block,
+	// which leaves that count unchanged.
 
-	prevPrevoteBitset := bitset.New(0)
-	var bs bitset.BitSet
-	for _, p := range prev.PrevoteProofs {
-		p.SignatureBitSet(&bs)
-		prevPrevoteBitset.InPlaceUnion(&bs)
-	}
-	curPrevoteBitset := bitset.New(0)
-	for _, p := range cur.PrevoteProofs {
-		p.SignatureBitSet(&bs)
-		curPrevoteBitset.InPlaceUnion(&bs)
-	}
-	if curPrevoteBitset.Count() != prevPrevoteBitset.Count() {
+	if voteProofsChanged(prev.PrevoteProofs, cur.PrevoteProofs) {
 		if !s.broadcastPrevotes(ctx, cur) {
 			return false
 		}
 	}
 
-	prevPrecommitBitset := bitset.New(0)
-	for _, p := range prev.PrecommitProofs {
-		p.SignatureBitSet(&bs)
-		prevPrecommitBitset.InPlaceUnion(&bs)
-	}
-	curPrecommitBitset := bitset.New(0)
-	for _, p := range cur.PrecommitProofs {
-		p.SignatureBitSet(&bs)
-		curPrecommitBitset.InPlaceUnion(&bs)
-	}
-	if curPrecommitBitset.Count() != prevPrecommitBitset.Count() {
+	if voteProofsChanged(prev.PrecommitProofs, cur.PrecommitProofs) {
 		if !s.broadcastPrecommits(ctx, cur) {
 			return false
 		}
 	}
 
 	return true
+}
+
+// voteProofsChanged reports whether cur has a voted block that prev lacks,
+// or a different set of signers for any block.
+func voteProofsChanged(prev, cur map[string]gcrypto.CommonMessageSignatureProof) bool {
+	if len(cur) != len(prev) {
+		return true
+	}
+
+	var prevBS, curBS bitset.BitSet
+	for hash, curProof := range cur {
+		prevProof, ok := prev[hash]
+		if !ok {
+			return true
+		}
+
+		prevProof.SignatureBitSet(&prevBS)
+		curProof.SignatureBitSet(&curBS)
+		if curBS.SymmetricDifferenceCardinality(&prevBS) != 0 {
+			return true
+		}
+	}
+
+	return false
 }
